@@ -286,9 +286,15 @@ class C04(TraceCheck):
         hist = self._spell(hist)
         from curtsies.formatstringarray import FSArray, fsarray
         from curtsies.formatstring import fmtstr
-        kw = {"bg": "blue"} if hist["fmt"] else {}
-        a = FSArray(hist["h"], hist["w"], **kw)
-        blank = enc.enc_fmtstr(fmtstr("", **kw))
+        # constructor formatting arguments in every spelling the constructor takes: a keyword, a positional colour
+        # name, a positional background + style (all "blue background"-like so that the blank row stays comparable)
+        import zlib
+        spell = zlib.crc32(json.dumps(hist, sort_keys=True, default=str).encode()) % 3
+        fargs, kw = ((), {})
+        if hist["fmt"]:
+            fargs, kw = [((), {"bg": "blue"}), (("on_blue",), {}), (("on_blue", "bold"), {"fg": "red"})][spell]
+        a = FSArray(hist["h"], hist["w"], *fargs, **kw)
+        blank = enc.enc_fmtstr(fmtstr("", *fargs, **dict(kw)))
 
         def snap():
             return [enc.enc_fmtstr(r) if not isinstance(r, str) else [[enc.enc_text(r), list(PLAIN)]] for r in a.rows]
@@ -332,10 +338,10 @@ class C04(TraceCheck):
                 rec["rows"] = snap()
             elif st["k"] == "make":
                 strings = [enc.build_value(x) for x in st["strings"]]
-                mkw = {"bg": "blue"} if st.get("fmt") else {}
+                margs, mkw = [((), {"bg": "blue"}), (("on_blue",), {}), (("on_blue", "bold"), {"fg": "red"})][spell] if st.get("fmt") else ((), {})
                 rec["rows"], rec["ncols"] = [], 0
                 try:
-                    arr = fsarray(strings, None if st["width"] == -1 else st["width"], **mkw)
+                    arr = fsarray(strings, None if st["width"] == -1 else st["width"], *margs, **dict(mkw))
                     rec["rows"] = [enc.enc_fmtstr(r) for r in arr.rows]
                     rec["ncols"] = arr.width
                     if arr.shape != (len(arr.rows), arr.width) or arr.height != len(arr.rows):
@@ -345,7 +351,7 @@ class C04(TraceCheck):
                 if st.get("fmt"):
                     # constructor formatting applies to plain str items (documented fmtstr(s, *args, **kwargs));
                     # the statement only says rows show the strings: log what was asked, with that formatting
-                    rec["strings"] = [x if x["k"] == "f" else enc.enc_value(__import__("curtsies").fmtstr(enc.build_value(x), **mkw)) for x in st["strings"]]
+                    rec["strings"] = [x if x["k"] == "f" else enc.enc_value(__import__("curtsies").fmtstr(enc.build_value(x), *margs, **dict(mkw))) for x in st["strings"]]
             elif st["k"] == "rowread":
                 rec["got"] = []
                 try:
